@@ -323,8 +323,13 @@ impl<const BITS: usize, const LIMBS: usize> Uint<BITS, LIMBS> {
             r.limbs[i + limbs] = (x << bits) | carry;
             carry = (x >> (word_bits - bits - 1)) >> 1;
         }
+        // Non-zero bits are also lost in the limbs that are dropped entirely and
+        // in the part of the most significant limb beyond `BITS`.
+        let overflow = carry != 0
+            || self.limbs[LIMBS - limbs..].iter().any(|&limb| limb != 0)
+            || r.limbs[LIMBS - 1] > Self::MASK;
         r.apply_mask();
-        (r, carry != 0)
+        (r, overflow)
     }
 
     /// Left shift by `rhs` bits.
